@@ -172,7 +172,11 @@ class PartitionBodyAfterFlip(PartitionBody):
         'partitions added by refresh_partitions are excluded here (they are deliberately read from the beginning)',)
 
     def clauses(self):
-        return [c for c in PartitionBody.clauses(self) if c.name in ('C09.batch_range',)]
+        out = [c for c in PartitionBody.clauses(self) if c.name in ('C09.batch_range',)]
+        for c in out:
+            c.kind = 'protocol'
+            c.replay = {'scenario': 'kafka_reset_after_failed_watermark'}
+        return out
 
 
 class CommitFn(KafkaBase):
